@@ -711,7 +711,8 @@ fn run_section_scaled(rng: &mut Rng) {
     let delta = if small { scale * rng.range(0.01, 0.2) } else { 10f64.powf(rng.range(-5.3, -3.0)) } * if rng.chance(0.5) { 1.0 } else { -1.0 };
     let plane = Plane3::new(n, n.dot(&pv.coords) + delta);
     let clear = vs.iter().map(|p| plane.signed_distance_to_point(p).abs()).fold(f64::INFINITY, f64::min);
-    if clear < if small { 3e-3 * scale } else { 3e-6 } {
+    // (the section snaps a mesh vertex within an ABSOLUTE 1e-6 of the plane onto it, whatever the size of the part)
+    if clear < if small { (3e-3 * scale).max(3e-6) } else { 3e-6 } {
         return;
     }
     let c = Case { mesh, kind: base.1, plane: plane.clone(), clean: true, open_section: false, watertight: true, scale };
